@@ -25,7 +25,7 @@ from . import core
 from .core import codes
 
 ATTR = {"readfile": "C02", "readdirs": "C01", "readconfig": "C01", "readhist": "C12", "merge": "C03", "write": "C07", "file": "C07",
-        "set": "C11", "keys": "C11", "groups": "C11", "free": "C20", "newopt": "C15", "errloc": "C13", "new": "C11"}
+        "set": "C11", "keys": "C11", "groups": "C11", "ext": "C17", "free": "C20", "newopt": "C15", "errloc": "C13", "new": "C11"}
 # dump after ...: the rule that produced the object
 ATTR_DUMP = {"readfile": "C02", "readdirs": "C01", "readconfig": "C01", "readhist": "C12", "merge": "C03", "set": "C11", "free": "C10", "write": "C10",
              "get": "C10", "keys": "C10", "groups": "C10", "ext": "C10"}
@@ -225,7 +225,10 @@ def convert(recs, name):
         elif k == "secreset":
             add({"e": "secreset"}, r)
         elif k == "ext":
-            pass          # extended values: C17 has its own module
+            f = unhex(r.get("file"))
+            add({"e": "ext", "h": r["h"], "g": c_opt(unhex(r["g"])), "k": c_opt(unhex(r["k"])), "rc": r["rc"], "line": r.get("line", 0),
+                 "file": codes(normp(f)) if f else [], "cmp_path": False, "cb": codes(unhex(r.get("cb")) or b""), "ca": codes(unhex(r.get("ca")) or b""),
+                 "vals": [codes(unhex(x)) for x in r.get("vals", []) if unhex(x)]}, r)
         else:
             add({"e": "opaque", "h": r.get("h", 0)}, r)
     return evs, src
